@@ -317,6 +317,16 @@ Section Fr.
     - unfold fio_close, fio_flush. rewrite Hw. reflexivity.
   Qed.
 
+  (* ---- a handle an earlier device error left without a buffered block, on a file that has data, refuses every write: nothing is acknowledged
+          that could not be stored (it has to be positioned by a seek first, as for reading) ---- *)
+  Theorem dead_handle_refuses_writes s data al : cur s = 0 -> 0 < fsize s -> fio_write bs ofs bad s data al = (s, 0, al).
+  Proof.
+    intros Hc Hs. unfold fio_write. rewrite Hc. cbn [Z.eqb andb]. destruct (Z.ltb_spec 0 (fsize s)); [|lia]. rewrite orb_true_r. reflexivity.
+  Qed.
+
+  Theorem dead_handle_reads_nothing s n : cur s = 0 -> fio_read bs ofs bad s n = (s, []).
+  Proof. intros Hc. unfold fio_read. rewrite Hc. cbn [Z.eqb]. rewrite !orb_true_r. reflexivity. Qed.
+
   (* ---- adfFileCreateNextBlock: the two blocks it may write ---- *)
   Lemma finish_create_dk s nSect n : (bs <= pos s -> n <> cur s) -> dk (finish_create bs ofs s nSect) n = dk s n.
   Proof.
